@@ -704,11 +704,13 @@ def _verify_with(eng, key, ctx, timeout_ms, alias, override):
         backend = "z3-" + z3.get_version_string()
         small = relevant_hypotheses(ob)
         # budgets: on the unchanged tree every obligation is discharged within ~1.5 s (see slowest_obligations in the
-        # evidence); the quick tier (timeout_ms 15000) therefore spends at most ~50 s on an obligation that fails
+        # evidence); the quick tier (timeout_ms 20000) therefore spends at most ~80 s on an obligation that fails
         q = timeout_ms // 3
-        plan = [(min(timeout_ms, 5000), 0, False, None)]
+        plan = [(min(timeout_ms, 8000), 0, False, None)]
         if small is not None:
-            plan.append((min(timeout_ms, max(q, 8000)), 0, False, small))
+            # then fewer hypotheses (sound: a subset).  (Trying the subset FIRST was measured to be worse: where the
+            # subset lacks a needed hypothesis the attempt runs into its timeout instead of failing fast.)
+            plan.append((timeout_ms, 0, False, small))
         reach = reachable_hypotheses(ob)
         if reach is not None:
             plan.append((min(timeout_ms, q), 0, False, reach))
